@@ -69,7 +69,8 @@ REGISTRY = {
                         eng("topic_check", "vh_channels", budget_q=6, budget_t=120, shards={"quick": 8, "thorough": 16}),
                         eng("chan_seq", "vh_channels", budget_q=5, budget_t=120, shards={"quick": 8, "thorough": 16})],
             "assumptions": COMMON_ASSUME},
-    "C05": {"engines": [stress(), asan("chan_stress", budget_t=90), tsan("chan_stress")], "assumptions": COMMON_ASSUME + SAN_ASSUME + [
+    "C05": {"engines": [stress(budget_q=20), eng("spmc_stress", "vh_channels", budget_q=7, budget_t=90, shards={"quick": 8, "thorough": 16}),
+                        asan("chan_stress", budget_t=90), tsan("chan_stress")], "assumptions": COMMON_ASSUME + SAN_ASSUME + [
         "progress verdicts: a thread counts as stuck only after 3 quiet windows with a healthy scheduler canary, all "
         "unfinished threads inside blocking calls, and either a legal spurious wake releases it or the history model "
         "shows its operation enabled"]},
